@@ -113,6 +113,10 @@ example : tensorTryFrom (ν := String) Arith.fixed [("a", 2), ("b", 3)] 6 =
 example : tensorTryFrom (ν := String) Arith.fixed [("a", usizeMax), ("b", 2)] 0 =
     .ok (.error [("a", usizeMax), ("b", 2)]) := by rfl
 
+/-- Non-vacuity of the hypothesis `src.WF` used from here on: the 2×3 tensor above. -/
+example : (TView.ofTensor (ν := String) { dataLen := 6, shape := [("a", 2), ("b", 3)], strides := [3, 1] }).WF :=
+  ofTensor_wf (n := 6) (shape := [("a", 2), ("b", 3)]) (by decide) (by rfl)
+
 /-! ## 3. `TensorAccess::try_from`, `TensorTranspose::try_from` -/
 
 /-- For every list of names: never a panic (no table entry indexes out of range); `Ok` — and
@@ -376,6 +380,27 @@ theorem every_matrix_view_total [Inhabited ν] : ∀ {m : MView}, MBuilt (ν := 
     rw [h] at h1; simp only [Outcome.ok.injEq] at h1; subst h1; exact hwf
 
 end
+
+/-- Non-vacuity of `TBuilt` / `MBuilt`: a reversed mask of a 2×3 tensor, and a reversed clipped
+    range of a 2×3 matrix, are such compositions. -/
+example : ∃ v : TView String, TBuilt v ∧ v.shape.map (·.2) = [1, 3] := by
+  have ht : tensorTryFrom (ν := String) Arith.fixed [("a", 2), ("b", 3)] 6 =
+      .ok (.ok { dataLen := 6, shape := [("a", 2), ("b", 3)], strides := [3, 1] }) := by rfl
+  have hb := TBuilt.tensor (by decide) ht
+  rcases maskFromAll_lenient_clips _ (every_tensor_view_total hb) [some ⟨0, 1⟩, none] rfl with
+    ⟨v, h1, _, h3, _⟩ | ⟨_, h2⟩
+  · refine ⟨v.reverse Arith.fixed ["b"], .reverse (.maskFromAll hb rfl h1), ?_⟩
+    simp only [TView.reverse]
+    rw [h3]; decide
+  · exfalso; apply h2; decide
+
+example : ∃ m : MView, MBuilt (ν := String) m ∧ (m.rows, m.columns) = (1, 2) := by
+  have hinv : MatrixMeta.Inv ⟨6, 2, 3⟩ := ⟨rfl, by decide, by decide, by decide⟩
+  have hb : MBuilt (ν := String) (MView.ofMatrix ⟨6, 2, 3⟩) := .matrix hinv
+  obtain ⟨v, h1, _, hr, hc⟩ := mrange_get_total _ (every_matrix_view_total hb) ⟨1, usizeMax⟩ ⟨0, 2⟩
+  refine ⟨v.reverse Arith.fixed true true, .reverse (.range hb h1), ?_⟩
+  simp only [MView.reverse, hr, hc, MView.ofMatrix]
+  decide
 
 /-- Non-vacuity: a reversed mask of a 2×3 tensor is such a composition; its getter answers `None`
     at coordinates `usize::MAX` (where the pinned code panicked) and `Some` inside. -/
